@@ -26,7 +26,7 @@ ov[os.path.join(rt, "select.go")] = patch("select.go", [
     ("\t\tj := cheaprandn(uint32(norder + 1))\n", "\t\tj := verifSelRandn(uint32(norder + 1))\n"),
 ])
 ov[os.path.join(rt, "rand.go")] = patch("rand.go", [
-    ("func rand() uint64 {\n", "func rand() uint64 {\n\tif verifMapState != 0 {\n\t\tif v, ok := verifMapRand(); ok {\n\t\t\treturn v\n\t\t}\n\t}\n"),
+    ("func rand() uint64 {\n", "func rand() uint64 {\n\tif verifOn != 0 {\n\t\tif v, ok := verifMapRand(); ok {\n\t\t\treturn v\n\t\t}\n\t}\n"),
 ])
 ov[os.path.join(rt, "alg.go")] = patch("alg.go", [
     ("\tfor i := range hashkey {\n\t\thashkey[i] = uintptr(bootstrapRand())\n\t}\n",
@@ -34,52 +34,63 @@ ov[os.path.join(rt, "alg.go")] = patch("alg.go", [
     ("\tfor i := range key {\n\t\tkey[i] = bootstrapRand()\n\t}\n",
      "\tfor i := range key {\n\t\tkey[i] = 0x9E3779B97F4A7C15 * uint64(i+1)\n\t}\n"),
 ])
+# per-goroutine PRNG states: a goroutine the simulator does not schedule (net/http's request-timeout helper) must not be able to
+# advance the state a scheduled task draws from
+ov[os.path.join(rt, "runtime2.go")] = patch("runtime2.go", [
+    ("\tgcAssistBytes int64\n", "\tgcAssistBytes int64\n\n\tverifSel uint64 // /verif/rtpatch: select poll order state of a simulated task (0: not a task)\n\tverifMap uint64 // /verif/rtpatch: runtime.rand state of a simulated task\n"),
+])
 extra = os.path.join(out, "verif_sim.go.txt")
 open(extra, "w").write('''package runtime
 
 // Added by /verif/rtpatch (simulator builds only; see DESIGN.md 3.3).
+// The states live in the g of each simulated task: goroutines the simulator does not schedule draw from the
+// ordinary per-M generators and cannot perturb a task's sequence.
 
-var verifSelState uint64
+var verifOn uint32
 
-// VerifSetSelectSeed seeds the select poll order of bubbled goroutines; 0 disables.
-func VerifSetSelectSeed(seed uint64) { verifSelState = seed }
+// VerifSetSelectSeed seeds the select poll order of the calling goroutine; 0 returns it to the runtime's own generator.
+func VerifSetSelectSeed(seed uint64) {
+	getg().verifSel = seed
+	if seed != 0 {
+		verifOn = 1
+	}
+}
+
+// VerifSetMapSeed seeds runtime.rand (map seeds, iteration offsets, unseeded math/rand) of the calling goroutine.
+func VerifSetMapSeed(seed uint64) {
+	getg().verifMap = seed
+	if seed != 0 {
+		verifOn = 1
+	}
+}
 
 // VerifGoid returns the current goroutine id.
 func VerifGoid() uint64 { return getg().goid }
 
 func verifSelRandn(n uint32) uint32 {
 	gp := getg()
-	if verifSelState == 0 || gp == nil || gp.bubble == nil {
+	if gp == nil || gp.verifSel == 0 {
 		return cheaprandn(n)
 	}
-	x := verifSelState
+	x := gp.verifSel
 	x ^= x >> 12
 	x ^= x << 25
 	x ^= x >> 27
-	verifSelState = x
+	gp.verifSel = x
 	return uint32((((x * 2685821657736338717) >> 32) * uint64(n)) >> 32)
 }
 
-var verifMapState uint64
-
-// VerifSetMapSeed seeds runtime.rand (map seeds, iteration offsets, unseeded math/rand)
-// for bubbled goroutines; 0 disables.
-func VerifSetMapSeed(seed uint64) { verifMapState = seed }
-
 //go:nosplit
 func verifMapRand() (uint64, bool) {
-	if verifMapState == 0 {
-		return 0, false
-	}
 	gp := getg()
-	if gp == nil || gp.bubble == nil {
+	if gp == nil || gp.verifMap == 0 {
 		return 0, false
 	}
-	x := verifMapState
+	x := gp.verifMap
 	x ^= x >> 12
 	x ^= x << 25
 	x ^= x >> 27
-	verifMapState = x
+	gp.verifMap = x
 	return x * 2685821657736338717, true
 }
 ''')
